@@ -10,6 +10,7 @@ import DialsModel.Model.HeapIO
 import DialsModel.Model.ParseIO
 import DialsModel.Model.TfIO
 import DialsModel.Model.WrapIO
+import DialsModel.Model.FlagSrcIO
 
 open Dials Dials.Proto
 
@@ -60,6 +61,7 @@ def handle (ss : Session) (line : String) : Session × String :=
   | "tf" :: rest => (ss, Tf.handleTf rest)
   | "wr" :: rest => (ss, Wrap.handleWr rest)
   | "bk" :: rest => (ss, Wrap.handleBk rest)
+  | "fs" :: rest => (ss, FlagSrc.handleFs rest)
   | "rt" :: rest =>
     let (st, out) := Runtime.handleRt ss.rt rest
     ({ ss with rt := st }, (out.replace "\n" " "))
